@@ -95,6 +95,17 @@ def expr_cases(tier):
                     out.append(_red(plus, _prod(times, [s_, s_, _leaf(a2, 2, b)]), X2))
                     out.append(_prod(times, [s_, _red(plus, _prod(times, [s_, _leaf(a2, 2, b)]), X2)]))
                     out.append(_red(plus, _prod(times, [s_, s_, s_, _leaf(a2, 2, b)]), X2))  # three uses
+        # S4b: a reduced PRODUCT r used twice, once directly and once inside a semiring sum: r x (r + k), (r + k) x r, ...
+        for a1, a3 in ((("i",), ("i", "j")), (("i", "j"), ("j",)), (("j", "k"), ("j",)), (("i",), ("i",))):
+            for X1 in (("i",), ("j",)):
+                r_ = _red(plus, _prod(times, [_leaf(a1, 1, b), _leaf(a3, 3, b)]), X1)
+                for a2 in small[:5]:
+                    k_ = _leaf(a2, 2, b)
+                    out.append(_prod(times, [r_, ("B", plus, r_, k_)]))
+                    out.append(_prod(times, [("B", plus, r_, k_), r_]))
+                    out.append(_prod(times, [r_, ("B", plus, k_, r_)]))
+                    out.append(_prod(times, [r_, k_, ("B", plus, r_, k_)]))
+                    out.append(("B", plus, _prod(times, [r_, k_]), r_))
         # S5: a semiring sum with a product as a direct operand (distribution in the other direction), optionally reduced
         for a1, a2, a3 in itertools.product(small[:5], repeat=3):
             body = ("B", plus, _prod(times, [_leaf(a1, 1, b), _leaf(a2, 2, b)]), _leaf(a3, 3, b))
